@@ -97,6 +97,16 @@ def size(t):
     return 1 + sum(size(t[i]) for i in children(t))
 
 
+def xcost(t):
+    """rough number of leaf-entry reads per result entry when the whole tree is evaluated without
+    tabulating intermediates (what the driver's `frdtree` cross-check does)"""
+    k = t[0]
+    if k in LEAVES:
+        return 1
+    f = 600 if k == "fb" else 3 if k == "mul" else 3 ** min(abs(t[1]), 9) if k == "pow" else 1
+    return f * sum(xcost(t[i]) for i in children(t))
+
+
 def tf_left_div(t):
     """the tree contains `TransferFunction / x`"""
     if t[0] == "div" and t[1][0] == "LT":
@@ -300,6 +310,7 @@ def norm_msg(msg):
 
 class C09(Family):
     prop = "C09"
+    extra_modules = ["CtrlVerif.Props.C09Tree"]      # tree theorem over run-time shapes
     externals = ["numpy.linalg.inv (exact counterpart det^-1 * adjugate in the model, validated by the same runs)",
                  "numpy.exp(1j*omega*dt) for discrete-time LTI operands (values supplied to the model)",
                  "scipy.interpolate.splprep/splev (only its interpolation property at the knots is used)"]
@@ -642,8 +653,11 @@ class C09(Family):
     # ---- execution ----------------------------------------------------------
     def line(self, case):
         tab = expj_table(case["tree"])
-        s = "frd X %d %s %s" % (len(tab), " ".join(tab), flatten(case["tree"]))
         ev = case.get("eval")
+        # `frdtree` = `frd` + cross-check of the postfix interpreter against Expr.evalModel (the
+        # evaluator of the tree theorem, Props/C09Tree.lean); same answer format
+        fam = "frdtree" if not ev and xcost(case["tree"]) <= 5000 else "frd"
+        s = "%s X %d %s %s" % (fam, len(tab), " ".join(tab), flatten(case["tree"]))
         if ev:
             s += " eval %d %s" % (len(ev["ws"]), " ".join(ev["ws"]))
         return s
